@@ -49,36 +49,44 @@ def run(ctx):
                 body = '\n'.join(norm(s) for s in h.body)
                 covered_globally = 'break' not in body and 'return' not in body
     sites = call_sites_of(repo, lambda t: t.qual.endswith('parse.into_sink'))
-    ctx.floor('C18.1', len(sites), 3, 'callers of into_sink')
+    entries = []
     for f, s in sites:
-        a = s.node.args[0]
-        desc = norm(a)
-        src = a
-        if isinstance(a, ast.Name):
-            for n in f.body_nodes():
-                if isinstance(n, ast.Assign) and any(isinstance(t, ast.Name) and t.id == a.id for t in n.targets):
-                    src = n.value
-                if isinstance(n, ast.With):
-                    for it in n.items:
-                        if it.optional_vars is not None and norm(it.optional_vars) == a.id:
-                            src = it.context_expr
-        ok = False
-        why = 'stream %s' % norm(src)[:60]
-        if isinstance(src, ast.Call) and norm(src.func) in OPENERS:
-            er = [common.static_const(repo, f.module, k.value) for k in src.keywords if k.arg == 'errors']
-            ok = bool(er) and isinstance(er[0], ast.Constant) and er[0].value in LENIENT
-            mode = [k.value for k in src.keywords if k.arg == 'mode'] + (list(src.args[1:2]))
-            if any(isinstance(m, ast.Constant) and isinstance(m.value, str) and 'b' in m.value for m in mode):
+        for g in common.effective_funcs(repo, f):       # a freshly extracted helper stands for its callers
+            if g not in entries:
+                entries.append(g)
+    ctx.floor('C18.1', len(entries), 3, 'callers of into_sink')
+    for f in entries:
+        # what the stream argument holds when the parser is entered, read on the paths of the entry function (through locals, `with .. as`
+        # and freshly extracted helpers)
+        seen_why = set()
+        n_enter = 0
+        for p in paths_of(repo, f, asserts='ignore'):
+            for i, e in enumerate(p.events):
+                if not e.calls('parse.into_sink') or not e.args:
+                    continue
+                n_enter += 1
+                src = e.args[0]
                 ok = False
-            why = '%s(... errors=%s)' % (norm(src.func), norm(er[0]) if er else 'strict (default)')
-        elif norm(src) == 'sys.stdin':
-            rec = [n for n in f.body_nodes() if isinstance(n, ast.Call) and norm(n.func) == 'sys.stdin.reconfigure' and getattr(n, 'lineno', 0) < s.node.lineno
-                   and any(k.arg == 'errors' and isinstance(common.static_const(repo, f.module, k.value), ast.Constant)
-                           and common.static_const(repo, f.module, k.value).value in LENIENT for k in n.keywords)]
-            ok = bool(rec)
-            why = 'sys.stdin %s' % ('reconfigured with a lenient handler' if ok else 'with the locale\'s strict decoder')
-        ctx.check(ok or covered_globally, 'C18.1', 'decode:%s' % f.qual, f.loc(s.node), 'input of %s is decoded leniently (%s)' % (f.name, why),
-                  'undecodable bytes in the input of %s raise UnicodeDecodeError out of readline() and abort the program (%s)' % (f.name, why), stmt=norm(s.node)[:100])
+                why = 'stream %s' % norm(src)[:60]
+                if isinstance(src, ast.Call) and norm(src.func) in OPENERS:
+                    er = [common.static_const(repo, f.module, k.value) for k in src.keywords if k.arg == 'errors']
+                    ok = bool(er) and isinstance(er[0], ast.Constant) and er[0].value in LENIENT
+                    mode = [k.value for k in src.keywords if k.arg == 'mode'] + (list(src.args[1:2]))
+                    if any(isinstance(m, ast.Constant) and isinstance(m.value, str) and 'b' in m.value for m in mode):
+                        ok = False
+                    why = '%s(... errors=%s)' % (norm(src.func), norm(er[0]) if er else 'strict (default)')
+                elif norm(src) == 'sys.stdin':
+                    rec = [x for x in p.events[:i] if x.kind == 'call' and x.ftext == 'sys.stdin.reconfigure'
+                           and any(k_ == 'errors' and isinstance(common.static_const(repo, f.module, v_), ast.Constant)
+                                   and common.static_const(repo, f.module, v_).value in LENIENT for k_, v_ in x.kwargs.items())]
+                    ok = bool(rec)
+                    why = 'sys.stdin %s' % ('reconfigured with a lenient handler' if ok else 'with the locale\'s strict decoder')
+                if why in seen_why:
+                    continue
+                seen_why.add(why)
+                ctx.check(ok or covered_globally, 'C18.1', 'decode:%s' % f.qual, f.loc(e.node), 'input of %s is decoded leniently (%s)' % (f.name, why),
+                          'undecodable bytes in the input of %s raise UnicodeDecodeError out of readline() and abort the program (%s)' % (f.name, why), stmt=e.text[:100])
+        ctx.floor('C18.1', n_enter, 1, 'path of %s that enters the parser' % f.short)
 
     # ---- triage conditions -------------------------------------------------------------------------------------
     cond = {}
